@@ -1517,6 +1517,10 @@ const MEM_PER_INPUT_BYTE: usize = 192;
 const PREALLOC: usize = 64 * 1024;
 const SLACK: usize = 8 * 1024;
 
+/// Derived catalogue types that hold an `Rc`/`Arc`/tree/shared buffer in a field (their descriptor
+/// says `box`/`tuple` only): compared by the bounds, not request by request.
+const REQS_INEXACT: [&str; 0] = [];
+
 struct UnknownLenInput<'a> {
 	data: &'a [u8],
 	pos: usize,
@@ -1564,6 +1568,18 @@ fn alloc_case<T: Cat>(ctx: &mut Ctx, name: &str, bs: &[u8], depth_allowance: usi
 	let hx = hex_or_dash(bs);
 	std::fs::write(&ctx.current_path, format!("{}\t{} bytes: {}\n", name, bs.len(), &hx[..hx.len().min(4000)])).ok();
 	let bound_req = PREALLOC.max(MEM_PER_INPUT_BYTE * bs.len()) + SLACK + core::mem::size_of::<T>();
+	// exact request comparison: types built from Vec / VecDeque / BinaryHeap / LinkedList / String /
+	// Box / arrays / tuples / options / enums only (Rc and Arc re-allocate when converted from the
+	// decoded Box, B-trees allocate std's nodes, shared buffers and bit vectors wrap a Vec)
+	let tyd = T::ty(2);
+	let tn = std::any::type_name::<T>();
+	// (GenericArray decodes through a temporary `Vec::with_capacity(N)` of fixed size N * size_of::<T>(),
+	// which the descriptor `garr n t` cannot express: bounds only)
+	let exact = !(tyd.contains("bmap") || tyd.contains("bset") || tyd.contains("bytes") || tyd.contains("bitseq") || tyd.contains("garr"))
+		&& !(tn.contains("Rc<") || tn.contains("Arc<") || REQS_INEXACT.iter().any(|x| tn.contains(x)));
+	// long inputs are sampled (the request line carries the input in hex)
+	let emit_reqs = exact && (bs.len() <= 4200 || bs.iter().take(64).fold(0u32, |a, b| a.wrapping_mul(31).wrapping_add(*b as u32)) % 16 == 0);
+	crate::alloc::set_skip_size(if cfg!(feature = "chain") { core::mem::size_of::<parity_scale_codec::Error>() } else { 0 });
 	let bound_peak = depth_allowance * PREALLOC + MEM_PER_INPUT_BYTE * bs.len() + SLACK + core::mem::size_of::<T>();
 	#[cfg(feature = "bytes-f")]
 	let shared = bytes::Bytes::copy_from_slice(bs);
@@ -1610,6 +1626,22 @@ fn alloc_case<T: Cat>(ctx: &mut Ctx, name: &str, bs: &[u8], depth_allowance: usi
 		});
 		let kind = ["slice", "unknown-length input", "io reader", "shared buffer", "zero-sized input type"][input_kind];
 		ctx.count("alloc:measured-decodes", 1);
+		// the requests themselves (count, sum, largest) are compared with the model's request trace
+		// (`Impl.decodeR`) — exactly, for the types whose allocations are all the crate's own
+		if let (Ok(ok), true, true) = (&r, input_kind <= 1, emit_reqs) {
+			let hx = hex_or_dash(bs);
+			let req = format!("reqs {} {} {} {}", if input_kind == 0 { "slice" } else { "io" }, m.skip_size, T::ty(bs.len() + 1), hx);
+			// a failing decode drops its partial result; chained errors box their cause: those
+			// requests (of exactly size_of::<Error>()) are left out on both sides
+			let (n, total, max) = if *ok {
+				let sk = m.skipped_n;
+				(m.req_n + sk, m.req_total + sk * m.skip_size, if sk > 0 { m.req_max.max(m.skip_size) } else { m.req_max })
+			} else {
+				(m.req_n, m.req_total, m.req_max)
+			};
+			let ans = format!("{} n={} total={} max={}", if *ok { "ok" } else { "err" }, n, total, max);
+			ctx.emit("reqs", name, &req, &ans);
+		}
 		if r.is_err() {
 			ctx.oracle_fail("C03", format!("{}: decoding {} panicked", name, hex_or_dash(&bs[..bs.len().min(40)])));
 		}
